@@ -147,6 +147,9 @@ Definition n_runs (fwd : bool) (rs : list (bool * Z)) : nat :=
   length (filter (fun x => Bool.eqb (fst x) fwd) rs).
 Definition n_fin_true (t : list tev) : nat := length (filter (fun b => b) (fins t)).
 
+Definition kind_at (e : env) (i : Z) : option kind := if i <? 0 then None else nth_error (e_mods e) (Z.to_nat i).
+Definition dir_at (dirs : list bool) (r : Z) : option bool := if r <? 0 then None else nth_error dirs (Z.to_nat r).
+
 (* ---- shipped modules ---- *)
 Definition reports_once (b : beh) (succ : bool) : Prop := b = Beh [succ] false.
 Definition shipped (k : kind) : bool := match k with KScript _ _ => false | _ => true end.
@@ -172,8 +175,6 @@ Fixpoint fires_to (ops : list op) (obs : list (list ev)) (caps : list (Z * Z)) (
   | _, _ => 0%nat
   end.
 
-Definition kind_at (e : env) (i : Z) : option kind := if i <? 0 then None else nth_error (e_mods e) (Z.to_nat i).
-Definition dir_at (dirs : list bool) (r : Z) : option bool := if r <? 0 then None else nth_error dirs (Z.to_nat r).
 
 (* Two Stop paths carry a precondition that App.Stop guarantees and a bare ModList.Stop does not:
    ActorSystemModule.Stop needs a live actor system, ClusterModule.Stop a provider that is not
@@ -210,6 +211,118 @@ Definition call_once_b (ops : list op) (obs : list (list ev)) (r i : Z) : bool :
 Definition shipped_calls_once (ops : list op) (obs : list (list ev)) (dirs : list bool) : Prop :=
   forall r i fwd k, dir_at dirs r = Some fwd -> kind_at (env_of ops) i = Some k -> shipped k = true ->
     pair_mem r i (unclaimed (env_of ops) dirs false [] (concat obs)) = false -> call_once ops obs r i.
+
+(* ---- runs and App guards on an observed log (one event list per operation) ---- *)
+Definition tag_of (x : ev) : option Z :=
+  match x with
+  | EEnter r _ | ENext r _ _ | EFin r _ | ERaise r _ | EAbort r _ | EEscape r | EIndexPanic r | EDeadlock r => Some r
+  | _ => None
+  end.
+(* the request a run's completion callback makes (true: App.Start), by the run's direction *)
+Definition request_of (e : env) (d : bool) : option bool :=
+  if is_app (e_mode e) then (if d then e_cbs e else e_cbp e) else None.
+(* the request that stands when an operation begins *)
+Definition op_request (o : op) : option bool :=
+  match o with OStart => Some true | OStop => Some false | _ => None end.
+
+(* directions of the runs of an observation.  A run is created where an event carries the next
+   unused run id: as the first thing of an OStart / OStop, or right after a completion callback
+   whose declared request it then carries out.  None: run ids that cannot be accounted for. *)
+Fixpoint scan_evs (e : env) (evs : list ev) (ctx : option bool) (dirs : list bool) : option (list bool) :=
+  match evs with
+  | [] => Some dirs
+  | x :: evs' =>
+      match tag_of x with
+      | None => scan_evs e evs' ctx dirs
+      | Some r =>
+          let nr := Z.of_nat (length dirs) in
+          let after (ds : list bool) (c : option bool) :=
+            match x with
+            | EFin r' _ => match dir_at ds r' with Some d => request_of e d | None => None end
+            | _ => c
+            end in
+          if r =? nr then
+            match ctx with
+            | Some d => scan_evs e evs' (after (dirs ++ [d]) None) (dirs ++ [d])
+            | None => None
+            end
+          else if (0 <=? r) && (r <? nr) then scan_evs e evs' (after dirs ctx) dirs
+          else None
+      end
+  end.
+Fixpoint created_from (e : env) (ops : list op) (obs : list (list ev)) (dirs : list bool) : option (list bool) :=
+  match ops, obs with
+  | o :: ops', x :: obs' =>
+      match scan_evs e x (op_request o) dirs with
+      | Some dirs' => created_from e ops' obs' dirs'
+      | None => None
+      end
+  | _, _ => Some dirs
+  end.
+Definition created (ops : list op) (obs : list (list ev)) : option (list bool) :=
+  created_from (env_of ops) ops obs [].
+
+(* The App guards, replayed on the observation.  App.state is recomputed from the events (accepted
+   Start -> Starting, the start run's finish(true) -> Normal, accepted Stop -> Stoping, a stop
+   run's finish(true) -> Stopped); every request - an OStart / OStop operation, or the request a
+   completion callback makes - must be honoured exactly when the state allows it: honoured = the
+   next event belongs to a new run, or the call is stuck behind the list lock (EDeadlock). *)
+Definition honoured (nr r : Z) (evs : list ev) : bool :=
+  match evs with
+  | EDeadlock r' :: _ => r =? r'
+  | y :: _ => match tag_of y with Some t => t =? nr | None => false end
+  | [] => false
+  end.
+Definition state_after_request (req : bool) : Z := if req then 2 else 4.
+
+Fixpoint guard_evs (e : env) (dirs : list bool) (evs : list ev) (app nr : Z) : option (Z * Z) :=
+  match evs with
+  | [] => Some (app, nr)
+  | x :: evs' =>
+      let nr1 := match tag_of x with Some r => if r =? nr then nr + 1 else nr | None => nr end in
+      match x with
+      | EFin r b =>
+          match dir_at dirs r with
+          | None => None
+          | Some d =>
+              let app1 := if b then (if d then 3 else 5) else app in
+              match request_of e d with
+              | Some req =>
+                  if Bool.eqb (honoured nr1 r evs') (accepted app1 req)
+                  then guard_evs e dirs evs' (if accepted app1 req then state_after_request req else app1) nr1
+                  else None
+              | None => guard_evs e dirs evs' app1 nr1
+              end
+          end
+      | _ => guard_evs e dirs evs' app nr1
+      end
+  end.
+Definition is_dead_ev (x : ev) : bool := match x with EDeadlock _ | EHang => true | _ => false end.
+Fixpoint guard_ops (e : env) (dirs : list bool) (ops : list op) (obs : list (list ev)) (app nr : Z) : bool :=
+  match ops, obs with
+  | o :: ops', x :: obs' =>
+      let start :=
+        match op_request o with
+        | Some req =>
+            if Bool.eqb (match x with y :: _ => match tag_of y with Some t => t =? nr | None => false end | [] => false end)
+                        (accepted app req)
+            then Some (if accepted app req then state_after_request req else app)
+            else None
+        | None => Some app
+        end in
+      match start with
+      | None => false
+      | Some app0 =>
+          match guard_evs e dirs x app0 nr with
+          | None => false
+          | Some (app1, nr1) => if existsb is_dead_ev x then true else guard_ops e dirs ops' obs' app1 nr1
+          end
+      end
+  | _, _ => true
+  end.
+Definition app_guard_ok (ops : list op) (obs : list (list ev)) (dirs : list bool) : bool :=
+  let e := env_of ops in
+  if is_app (e_mode e) then guard_ops e dirs ops obs (s_app (init e)) 0 else true.
 
 (* data used by the Examples of Props.v *)
 Definition ex_ok : beh := Beh [true] false.    (* calls next(true) before returning *)
